@@ -233,6 +233,12 @@ class SymText:
             if not re.fullmatch(r"-?(0|[1-9][0-9]*)", o) or o == "-0":
                 return False
             return s.payload == int(o)
+        if s.kind == "hexnum":
+            # hex(v) == "0x1f"  <=>  v == 0x1f for canonical numerals (hex() of a non-negative int)
+            pat = r"0X(0|[1-9A-F][0-9A-F]*)" if s.up else r"0x(0|[1-9a-f][0-9a-f]*)"
+            if not re.fullmatch(pat, o):
+                return False
+            return s.payload == int(o, 16)
         if s.kind == "hex":
             items = s.payload
             pat = r"[0-9A-F]*" if s.up else r"[0-9a-f]*"
